@@ -1075,3 +1075,56 @@ def rule_X6(F, R, parts=('coverage', 'labels')):
     R.obligation(ok, 'X6 node_label')
     if not ok: R.violation('rsbdd::parser_io::SymbolicParseTree / X6 / node_label', 'X6', 'node kinds without their own label arm: %s' % sorted(set(rf) - named))
     R.sample({'rule': 'X6', 'recursive fields': rf, 'visited by nodes_recursive': {k: sorted(v) for k, v in cov_nodes.items()}, 'edges emitted': {k: sorted(v) for k, v in cov_edges.items()}})
+
+# ------------------------------------------------------------------------------------------------ X7 exporter plumbing
+def rule_X7(F, R):
+    """C14: (a) every label of both exporters is built as plain text that the dot crate escapes (LabelText::label / LabelStr) - the
+    `escaped` / `html` forms pass backslashes and markup through; (b) the node and edge lists of the diagram exporter and the node
+    list of the parse-tree exporter are de-duplicated (a shared node is one node with one set of outgoing edges); (c) the parse-tree
+    exporter walks every child list element by element (`list.iter().enumerate()`, no skipping / de-duplicating adaptor in between)"""
+    lib = F.lib()
+    # (a) label constructors
+    n = 0
+    for name, t in lib.ithir.items():
+        base = name.split('::{closure')[0]
+        if not (base.endswith('Labeller>::node_label') or base.endswith('Labeller>::edge_label')): continue
+        for e in walk(t['body']):
+            kind = None
+            if e['k'] == 'Call' and '::'.join((callee_name(e) or '').split('::')[-3:-1]) == 'dot::LabelText': kind = callee_name(e).split('::')[-1]
+            if e['k'] == 'Adt' and canon(e['adt']).endswith('dot::LabelText'): kind = e['variant']
+            if kind is None: continue
+            n += 1
+            ok = kind in ('label', 'LabelStr')
+            R.count('X7:label-constructors'); R.obligation(ok, 'X7 label %s %s' % (name, e['loc']))
+            if not ok:
+                R.violation('%s / X7 / label built with %s' % (base, kind), 'X7', 'labels must be plain text that the dot writer escapes (LabelText::label / LabelStr); `%s` writes backslashes and markup of a variable name through to the file' % kind, e['loc'])
+    if n < 4: R.violation('rsbdd exporters / X7 / VACUITY', 'VACUITY', 'expected label constructors in four Labeller functions, found %d' % n)
+    # (b) de-duplication
+    for fn, what in (('rsbdd::bdd_io::BDDGraph::nodes_recursive', 'node list of the diagram'), ('rsbdd::bdd_io::BDDGraph::edges_recursive', 'edge list of the diagram'),
+                     ('rsbdd::parser_io::SymbolicParseTree::new', 'node list of the parse tree')):
+        t = lib.ithir.get(fn)
+        ok = False
+        if t is not None:
+            uniq = [e for e in walk(t['body']) if e['k'] == 'Call' and callee_name(e) in ('itertools::Itertools::unique', 'itertools::Itertools::unique_by', 'itertools::Itertools::dedup')]
+            sets = [e for e in walk(t['body']) if e['k'] == 'Call' and (callee_name(e) or '').split('::')[-1] in ('collect',) and any(s_ in e['ty'].get('s', '') for s_ in ('HashSet', 'BTreeSet', 'IndexSet'))]
+            ok = any(callee_name(e) == 'itertools::Itertools::unique' for e in uniq) or bool(sets)
+        R.count('X7:deduplicated-lists'); R.obligation(ok, 'X7 unique ' + fn)
+        if not ok: R.violation('%s / X7 / duplicates' % fn, 'X7', 'the %s must be de-duplicated (`.unique()`): a node shared by several parents is one node with one set of outgoing edges' % what)
+    # (c) child lists walked element by element
+    te = [k for k in lib.ithir if k.endswith('GraphWalk>::edges') and 'SymbolicParseTree' in k]
+    if te:
+        t = lib.ithir[te[0]]
+        for m in walk(t['body']):
+            if m['k'] == 'Match' and m.get('source') == 'ForLoopDesugar':
+                sc = strip(m['scrutinee'])
+                it = strip(sc['args'][0]) if sc['k'] == 'Call' and sc['args'] else None
+                if it is None: continue
+                chain = []
+                x = it
+                while x['k'] == 'Call' and x['args']:
+                    chain.append((callee_name(x) or '').split('::')[-1]); x = strip(x['args'][0])
+                if x['k'] not in ('VarRef', 'UpvarRef', 'Field'): continue
+                ok = all(c in ('iter', 'enumerate', 'into_iter', 'deref', 'as_ref', 'as_slice') for c in chain)
+                R.count('X7:child-list-loops'); R.obligation(ok, 'X7 loop %s' % m.get('loc'))
+                if not ok:
+                    R.violation('rsbdd::parser_io::SymbolicParseTree / X7 / child list iteration', 'X7', 'a child list is walked through %s: every element must get its own edge and index (no skipping or de-duplicating adaptor)' % '.'.join(reversed(chain)), m.get('loc'))
